@@ -5,6 +5,8 @@ CONSTANTS
   XConnectors = {"custom", "default"}
   XTimeouts = {"none", "short"}
   XVias = {"dial", "stream-last", "stream-first"}
+  XHosts = {"name", "ip"}
+  XStores = {"system", "withCA"}
   XResps = {"success", "refuse", "garbage", "close", "hangup", "wrongid", "stall"}
   XRcs = {2, 10}
   XInjs = {"none", "before", "with", "after"}
